@@ -371,7 +371,8 @@ fn extra(s: &mut Session) {
     // compile-time probe: Engine: Send + Sync + Clone, SpeechGenerator: Send
     let dir = verif_dir().join("harness/probes/send_sync");
     let out = std::process::Command::new("cargo")
-        .args(["check", "--offline", "--quiet"])
+        .args(["check", "--offline", "--quiet", "--target-dir"])
+        .arg(verif_dir().join("target/probe"))
         .current_dir(&dir)
         .env("CARGO_NET_OFFLINE", "true")
         .output();
